@@ -598,7 +598,7 @@ class _SetOperation(Selectable, Term):  # type:ignore[misc]
 
         # Default to the base query's dialect and quote_char
         ctx = ctx.copy(
-            dialect=self.base_query.dialect,
+            dialect=self.base_query.QUERY_CLS.SQL_CONTEXT.dialect,
             quote_char=self.base_query.QUERY_CLS.SQL_CONTEXT.quote_char,
             parameterizer=ctx.parameterizer,
         )
